@@ -1352,7 +1352,12 @@ def trim_cast_varchar(expression: exp.Expression) -> exp.Expression:
         return expression
 
     return exp.Trim(
-        this=exp.Cast(this=operand, to=exp.DataType(this=exp.DataType.Type.VARCHAR, nested=False, prefix=False)),
+        # the children of a replaced node are not visited by transform, so convert a trim inside the operand
+        # here, eg: trim(parse_json(trim(v:a)):b)
+        this=exp.Cast(
+            this=operand.transform(trim_cast_varchar),
+            to=exp.DataType(this=exp.DataType.Type.VARCHAR, nested=False, prefix=False),
+        ),
         # keep the characters to remove and the side (LTRIM / RTRIM)
         expression=expression.args.get("expression"),
         position=expression.args.get("position"),
